@@ -179,6 +179,17 @@ func (e *Engine) release(fr *Frame, spec *lockSpec, l *Loc, isUnlock bool) {
 		fr.oblige("lock-inv", fmt.Sprintf("%s#%d/%s", kind, n, clauseName("inv", i, inv)), tt)
 	}
 	if top.contract != nil {
+		if !isUnlock && fr == top {
+			// `wait: expr` - holds whenever this function blocks on a condition variable
+			for i, wc := range top.contract.Waits {
+				tt, err := fr.evalClause(wc, &evalCtx{fr: fr, st: fr.st, old: fr.entry, names: top.topNames, region: fr.st.region})
+				if err != nil {
+					fr.stale(fmt.Sprintf("wait#%d/%s", n, clauseName("blocks", i, wc)), err)
+					continue
+				}
+				fr.oblige("region", fmt.Sprintf("wait#%d/%s", n, clauseName("blocks", i, wc)), tt)
+			}
+		}
 		for i, uc := range top.contract.Unlocks {
 			if uc.Ord != n {
 				continue
